@@ -43,6 +43,8 @@ def _src_files():
 
 def source_hash():
     h = hashlib.sha256()
+    with open(os.path.abspath(__file__), "rb") as f:
+        h.update(f.read())      # (the compiler flags are part of a build)
     for p in _src_files():
         h.update(p.encode())
         with open(p, "rb") as f:
@@ -72,7 +74,11 @@ def _compile(variant, fam, outdir):
         cmd = ["clang", "-O1", "-g", "-fno-omit-frame-pointer", "-UNDEBUG",
                "-fsanitize=address,undefined",
                "-fno-sanitize=signed-integer-overflow,shift,"
-               "float-cast-overflow,float-divide-by-zero",
+               "float-cast-overflow,float-divide-by-zero,"
+               # (memcpy(dst, NULL, 0) for an empty fs bucket: formally a
+               # null argument, no memory is touched -- not C16's business;
+               # with a non-zero size the process dies anyway)
+               "nonnull-attribute",
                "-fno-sanitize-recover=undefined",
                "-shared-libasan"] + common
     else:
